@@ -1,7 +1,7 @@
 (* PropC18.v — C18: queues are isolated from one another, live and across clean restarts (histories from a fresh directory, hist_ok); the crash part rests on C02.
    Statements only; each theorem is closed by `exact <lemma>`; proofs live in the imported files. *)
 From Coq Require Import Lia NArith List.
-From MRL Require Import Bytes Params Names Frame Record Mem Spec Rolling Log Hist SpecRefine QueueIso RecordProofs RestartInv RestartFinal RestartCorollaries CrashCorollaries PersistSurvive CrashAtomic DamageAtomic.
+From MRL Require Import Bytes Params Names Frame Record Mem Spec Rolling Log Hist SpecRefine QueueIso RecordProofs RestartInv RestartFinal RestartCorollaries CrashCorollaries PersistSurvive CrashAtomic DamageAtomic PowerLoss PowerCorollaries.
 
 (* specification level: removing the calls addressed to other queues changes neither q's content nor the outcomes of q's calls *)
 Theorem C18_spec_projection :
@@ -167,4 +167,82 @@ Theorem C18_crash_projection_always :
     log_last_record st_r q = s_last_record mq q /\ log_next st_r q = next_or0 (s_get mq q))).
 Proof. exact crash_projection_always. Qed.
 Print Assumptions C18_crash_projection_always.
+
+(* power loss: after recovery from any power-loss image, the content of q is that of the specification run over the calls addressed to q in some prefix of the history *)
+Theorem C18_power_projection :
+    forall P : params,
+    7 < BS P ->
+    BS P <= 65542 ->
+    1 <= NB P ->
+    (forall (t : byte) (p : bytes), crcf P t p < 2 ^ 32) ->
+    L_GC P = false ->
+    L_IO P = false ->
+    L_SHORT P = false ->
+    TornProofs.no_zero_collision P ->
+    forall (st0 : state) (G0 : ghost),
+    Inv P st0 G0 ->
+    w_pending (s_wr st0) = [] ->
+    forall h : list (op * bool),
+    GhostLog.hist_wf P st0 h ->
+    RestartWrite.stream_bound P G0 (map snd (GhostLog.run_log P st0 h)) ->
+    forall evs : list event,
+    c_ev (w_ctx (s_wr (fst (run P st0 h)))) = rev evs ++ c_ev (w_ctx (s_wr st0)) ->
+    CB P st0 h ->
+    forall (cut : N) (pol : policy) (hint : list bytes),
+    exists (m : nat) (st_r : state),
+    (m <= length h)%nat /\
+    open P (fold_left Driver.apply_event (Driver.power_events evs cut) (c_fs (w_ctx (s_wr st0)))) None
+    pol hint = OpenOk st_r /\
+    (forall (q : bytes) (m0 : smap),
+    s_get m0 q = s_get (abs_qs (s_qs st0)) q ->
+    let mq := fst (s_run m0 (filter (addressed q) (firstn m (sops h)))) in
+    s_get (abs_qs (s_qs st_r)) q = s_get mq q /\
+    (forall lo hi : bound, log_range st_r q lo hi = s_range mq q lo hi) /\
+    log_last_position st_r q = s_last_position mq q /\
+    log_last_record st_r q = s_last_record mq q /\ log_next st_r q = next_or0 (s_get mq q)).
+Proof. exact power_projection. Qed.
+Print Assumptions C18_power_projection.
+
+(* and that prefix includes every call up to a point where everything was flushed and synced before the power failed *)
+Theorem C18_power_projection_after_persist :
+    forall P : params,
+    7 < BS P ->
+    BS P <= 65542 ->
+    1 <= NB P ->
+    (forall (t : byte) (p : bytes), crcf P t p < 2 ^ 32) ->
+    L_GC P = false ->
+    L_IO P = false ->
+    L_SHORT P = false ->
+    TornProofs.no_zero_collision P ->
+    forall (st0 : state) (G0 : ghost),
+    Inv P st0 G0 ->
+    w_pending (s_wr st0) = [] ->
+    forall h : list (op * bool),
+    GhostLog.hist_wf P st0 h ->
+    RestartWrite.stream_bound P G0 (map snd (GhostLog.run_log P st0 h)) ->
+    forall evs : list event,
+    c_ev (w_ctx (s_wr (fst (run P st0 h)))) = rev evs ++ c_ev (w_ctx (s_wr st0)) ->
+    CB P st0 h ->
+    forall (i : nat) (evs_i : list event),
+    (i <= length h)%nat ->
+    let st_i := fst (run P st0 (firstn i h)) in
+    w_pending (s_wr st_i) = [] ->
+    PersistProofs.wr_all_synced (s_wr st_i) ->
+    c_ev (w_ctx (s_wr st_i)) = rev evs_i ++ c_ev (w_ctx (s_wr st0)) ->
+    forall (cut : N) (pol : policy) (hint : list bytes),
+    lenN evs_i <= cut ->
+    exists (m : nat) (st_r : state),
+    (i <= m)%nat /\
+    (m <= length h)%nat /\
+    open P (fold_left Driver.apply_event (Driver.power_events evs cut) (c_fs (w_ctx (s_wr st0)))) None
+    pol hint = OpenOk st_r /\
+    (forall (q : bytes) (m0 : smap),
+    s_get m0 q = s_get (abs_qs (s_qs st0)) q ->
+    let mq := fst (s_run m0 (filter (addressed q) (firstn m (sops h)))) in
+    s_get (abs_qs (s_qs st_r)) q = s_get mq q /\
+    (forall lo hi : bound, log_range st_r q lo hi = s_range mq q lo hi) /\
+    log_last_position st_r q = s_last_position mq q /\
+    log_last_record st_r q = s_last_record mq q /\ log_next st_r q = next_or0 (s_get mq q)).
+Proof. exact power_projection_after_persist. Qed.
+Print Assumptions C18_power_projection_after_persist.
 
